@@ -1,5 +1,5 @@
 \* degenerate shapes: no queue (WithMaxQueueLen(0)), budget 1
-CONSTANTS N = 1 Q = 0 NCalls = 4
+CONSTANTS N = 1 Q = 0 NCalls = 3 WithObs = FALSE
 INIT Init
 NEXT Next
 INVARIANTS TypeOK AtMostNRunning SemIsHolders CntIsCounted AcceptedBound QueueBound RunsExactlyOnce Conservation
